@@ -237,3 +237,357 @@ Section Paths.
       apply under_size in H. apply under_size in Hu. simpl in H. lia.
   Qed.
 End Paths.
+
+(* ------------------------------------------------------------------ exists_scan *)
+Lemma exists_scan_sub rs : forall seen e f, In (e, f) (exists_scan seen rs) -> f = false /\ In (e, false) rs.
+Proof.
+  induction rs as [|[e1 f1] rs IH]; simpl; intros seen e f H; [contradiction|].
+  destruct f1.
+  - apply IH in H. tauto.
+  - destruct (existsb _ seen).
+    + apply IH in H. tauto.
+    + destruct H as [H|H]; [injection H as <- <-; auto|]. apply IH in H. tauto.
+Qed.
+Lemma exists_scan_first rs : (exists e, In (e, false) rs) -> exists_scan [] rs <> [].
+Proof.
+  induction rs as [|[e1 f1] rs IH]; intros [e H]; simpl in *; [contradiction|].
+  destruct f1; [|discriminate].
+  destruct H as [H|H]; [discriminate|]. apply IH. eauto.
+Qed.
+Lemma oval_eqb_refl k : oval_eqb k k = true.
+Proof. destruct k; simpl; auto. apply val_eqb_eq. reflexivity. Qed.
+Lemma oval_eqb_eq a b : oval_eqb a b = true -> a = b.
+Proof. destruct a, b; simpl; try discriminate; auto. intros H. apply val_eqb_eq in H. congruence. Qed.
+
+(* a run of results with one and the same root key, not seen before, is scanned on its own *)
+Lemma scan_skip k ch : forall seen rest, (forall r, In r ch -> lookup (fst r) PRoot = k) ->
+  existsb (oval_eqb k) seen = true -> exists_scan seen (ch ++ rest) = exists_scan seen rest.
+Proof.
+  induction ch as [|[e f] ch IH]; intros seen rest Hk Hs; simpl; auto.
+  assert (lookup e PRoot = k) by (apply (Hk (e, f)); simpl; auto).
+  destruct f; [apply IH; auto; intros; apply Hk; simpl; auto|].
+  rewrite H, Hs. apply IH; auto. intros; apply Hk; simpl; auto.
+Qed.
+Lemma scan_chunk k ch : forall seen rest, (forall r, In r ch -> lookup (fst r) PRoot = k) ->
+  existsb (oval_eqb k) seen = false ->
+  exists seen', trues (exists_scan seen (ch ++ rest)) = trues (exists_scan [] ch) ++ trues (exists_scan seen' rest)
+                /\ (forall j, existsb (oval_eqb j) seen' = true -> j = k \/ existsb (oval_eqb j) seen = true).
+Proof.
+  induction ch as [|[e f] ch IH]; intros seen rest Hk Hs; simpl.
+  - exists seen. split; auto.
+  - assert (lookup e PRoot = k) by (apply (Hk (e, f)); simpl; auto).
+    destruct f.
+    + apply IH; auto. intros; apply Hk; simpl; auto.
+    + rewrite H, Hs. simpl. exists (k :: seen). split.
+      * rewrite (scan_skip k ch (k :: seen) rest); [|intros; apply Hk; simpl; auto|simpl; rewrite oval_eqb_refl; auto].
+        replace (exists_scan [k] ch) with (exists_scan [k] (ch ++ [])) by (rewrite app_nil_r; reflexivity).
+        rewrite (scan_skip k ch [k] []); [|intros; apply Hk; simpl; auto|simpl; rewrite oval_eqb_refl; auto].
+        simpl. unfold trues at 1 2. simpl. reflexivity.
+      * intros j Hj. simpl in Hj. apply orb_true_iff in Hj. destruct Hj as [Hj|Hj]; auto.
+        left. apply oval_eqb_eq in Hj. auto.
+Qed.
+
+(* ------------------------------------------------------------------ conditions *)
+Definition cpath (c : tcond) : path := match c with TCmp _ _ p _ => p | THas p _ => p end.
+Definition is_ex (c : tcond) : bool := match c with TCmp true _ _ _ => true | _ => false end.
+
+Section Conds.
+  Variable C : cmodel.
+  Variable M : mworld.
+  Variable D : list Z.
+  Notation W := (mw M).
+  Notation eval_path := (eval_path M D).
+  Notation eval := (eval C M D).
+  Notation eval_all := (eval_all C M D).
+
+  Lemma eval_factor1 c q e e1 v : under q (cpath c) -> (forall x, under q x -> lookup e x = None) ->
+    eval_path q e = [(e1, v)] -> eval c e = eval c e1.
+  Proof.
+    intros Hu Hfr H1. destruct c as [ex k p lit|p T]; simpl in *; rewrite (path_factor M D q p e Hu Hfr), H1; simpl;
+      rewrite app_nil_r; reflexivity.
+  Qed.
+  Lemma eval_factor c q e : is_ex c = false -> under q (cpath c) -> (forall x, under q x -> lookup e x = None) ->
+    eval c e = flat_map (fun r : env * val => eval c (fst r)) (eval_path q e).
+  Proof.
+    intros Hx Hu Hfr. destruct c as [ex k p lit|p T]; simpl in *.
+    - destruct ex; [discriminate|]. rewrite (path_factor M D q p e Hu Hfr). rewrite map_flat_map. reflexivity.
+    - rewrite (path_factor M D q p e Hu Hfr). rewrite map_flat_map. reflexivity.
+  Qed.
+  Lemma eval_all_factor1 c cs q e e1 v : under q (cpath c) -> (forall x, under q x -> lookup e x = None) ->
+    eval_path q e = [(e1, v)] -> eval_all (c :: cs) e = eval_all (c :: cs) e1.
+  Proof. intros Hu Hf H1. simpl. rewrite (eval_factor1 c q e e1 v Hu Hf H1). reflexivity. Qed.
+  Lemma eval_all_factor c cs q e : is_ex c = false -> under q (cpath c) -> (forall x, under q x -> lookup e x = None) ->
+    eval_all (c :: cs) e = flat_map (fun r : env * val => eval_all (c :: cs) (fst r)) (eval_path q e).
+  Proof.
+    intros. simpl. rewrite (eval_factor c q e) by auto. rewrite trues_flat_map, flat_map_flat_map. reflexivity.
+  Qed.
+End Conds.
+
+
+(* ------------------------------------------------------------------ unfolding equations of the mutual fixpoints *)
+Lemma tr_pat_eq C oc p a t l :
+  tr_pat C oc p a (Pat t l) =
+  nested_filter C oc p a t (negb (is_anil l)) ++ tr_alist C (dflt (f_type C oc a)) (nested_var C oc p a t (negb (is_anil l))) l.
+Proof. reflexivity. Qed.
+Lemma tr_alist_cons C oc p a c rest : tr_alist C oc p (ACons a c rest) = tr_apat C oc p a c ++ tr_alist C oc p rest.
+Proof. reflexivity. Qed.
+Lemma fok_pat_eq C objcls oc p a t l :
+  fok_pat C objcls oc p a (Pat t l) =
+  let d := dflt (f_type C oc a) in
+  let pv := nested_var C oc p a t (negb (is_anil l)) in
+  is_some (f_type C oc a) && objcls d && comparable C t d
+  && (if f_iter C oc a then type_filter C oc a t || head_ok (tr_alist C d pv l) else true)
+  && fok_alist C objcls d pv l.
+Proof. reflexivity. Qed.
+Lemma fok_alist_cons C objcls oc p a c rest :
+  fok_alist C objcls oc p (ACons a c rest) =
+  negb (nmemb a (names rest)) && fok_apat C objcls oc p a c && fok_alist C objcls oc p rest.
+Proof. reflexivity. Qed.
+Lemma matches_eq sub M t l o : matches sub M (Pat t l) o = type_ok sub M t o && matches_attrs sub M l o.
+Proof. reflexivity. Qed.
+Lemma matches_attrs_cons sub M a c rest o :
+  matches_attrs sub M (ACons a c rest) o = matches_attr sub M c (attr (mw M) o a) && matches_attrs sub M rest o.
+Proof. reflexivity. Qed.
+
+(* ------------------------------------------------------------------ where the emitted conditions live *)
+Section TrUnder.
+  Variable C : cmodel.
+  Lemma infer_under ai vi im un ex pa v : under pa (cpath (infer ai vi im un ex pa v)).
+  Proof. unfold infer. destruct (infer_kind ai vi im un); cbn [cpath]; auto using under_refl, under_flat. Qed.
+  Lemma nested_var_under oc p a t kw : under (PAttr p a) (nested_var C oc p a t kw).
+  Proof. unfold nested_var. destruct (resolve_flatten _ _ _); [apply under_flat|apply under_refl]. Qed.
+  Lemma nested_filter_under oc p a t kw c : In c (nested_filter C oc p a t kw) -> under (PAttr p a) (cpath c).
+  Proof.
+    unfold nested_filter. destruct (type_filter C oc a t); simpl; [|tauto]. intros [<-|[]]. simpl. apply nested_var_under.
+  Qed.
+  Lemma tr_vals_under oc p a v un ex c : In c (tr_vals C oc p a v un ex) -> under (PAttr p a) (cpath c).
+  Proof.
+    unfold tr_vals. destruct (em_kind _ _ _ _); destruct (unresolved _ _); simpl;
+      try (apply nested_filter_under); intros [<-|[]]; apply infer_under.
+  Qed.
+
+  Lemma tr_under :
+    (forall q oc p a c, In c (tr_pat C oc p a q) -> under (PAttr p a) (cpath c)) /\
+    (forall l oc p c, In c (tr_alist C oc p l) -> under p (cpath c)) /\
+    (forall ap oc p a c, In c (tr_apat C oc p a ap) -> under (PAttr p a) (cpath c)).
+  Proof.
+    apply pat_mutind.
+    - intros t l IH oc p a c. rewrite tr_pat_eq, in_app_iff. intros [H|H]; [eapply nested_filter_under; eauto|].
+      eapply IH in H. eapply under_trans; [apply nested_var_under|exact H].
+    - intros oc p c [].
+    - intros a ap IHa rest IHr oc p c. rewrite tr_alist_cons, in_app_iff. intros [H|H]; [|eapply IHr; exact H].
+      eapply IHa in H. eapply under_trans; [apply under_attr|exact H].
+    - intros v oc p a c [<-|[]]. apply infer_under.
+    - intros q IH oc p a c. simpl. apply IH.
+    - intros v oc p a c. simpl. apply tr_vals_under.
+    - intros v oc p a c. simpl. apply tr_vals_under.
+  Qed.
+End TrUnder.
+
+(* ------------------------------------------------------------------ values *)
+Section Values.
+  Variable M : mworld.
+  Notation W := (mw M).
+
+  Lemma py_eq_sym x y : py_eq W x y = py_eq W y x.
+  Proof.
+    destruct x as [a|a|l|l], y as [b|b|m|m]; simpl; try reflexivity; try apply Z.eqb_sym;
+      try (destruct l; reflexivity); try (destruct m; reflexivity); try (destruct l, m; simpl; try reflexivity; apply andb_comm).
+  Qed.
+  Lemma existsb_ext' {A} (f g : A -> bool) l : (forall x, f x = g x) -> existsb f l = existsb g l.
+  Proof. intros H. induction l; simpl; auto. rewrite H, IHl. reflexivity. Qed.
+  Lemma forallb_ext' {A} (f g : A -> bool) l : (forall x, f x = g x) -> forallb f l = forallb g l.
+  Proof. intros H. induction l; simpl; auto. rewrite H, IHl. reflexivity. Qed.
+
+  Lemma common_scalar_lit av v : is_coll av = true -> is_coll v = false -> common M av v = vmem M v (elems av).
+  Proof.
+    intros Ha Hv. unfold common, as_elems. rewrite Ha, Hv. unfold vmem. apply existsb_ext'. intros x. simpl.
+    rewrite orb_false_r. apply py_eq_sym.
+  Qed.
+  Lemma common_coll av v : is_coll av = true -> is_coll v = true ->
+    common M av v = existsb (fun x => vmem M x (elems v)) (elems av).
+  Proof. intros Ha Hv. unfold common, as_elems. rewrite Ha, Hv. reflexivity. Qed.
+  Lemma common_scalar_attr av v : is_coll av = false -> is_coll v = true -> common M av v = vmem M av (elems v).
+  Proof. intros Ha Hv. unfold common, as_elems. rewrite Ha, Hv. simpl. apply orb_false_r. Qed.
+
+  Lemma vmem_obj x m : vmem M (VO x) (map VO m) = zmem (okey W x) (map (okey W) m).
+  Proof. unfold vmem, zmem. induction m; simpl; auto. rewrite IHm. reflexivity. Qed.
+  Lemma subset_obj xs m : forallb (fun x => vmem M x (map VO m)) (map VO xs) = zsubset (map (okey W) xs) (map (okey W) m).
+  Proof. unfold zsubset. induction xs; simpl; auto. rewrite vmem_obj, IHxs. reflexivity. Qed.
+  Lemma same_set_obj xs m : same_set M (VLO xs) (VLO m) = py_eq W (VLO xs) (VLO m).
+  Proof. unfold same_set, as_elems. simpl. rewrite !subset_obj. destruct xs, m; reflexivity. Qed.
+End Values.
+
+(* ------------------------------------------------------------------ the main induction *)
+Lemma tr_apat_match C oc p a q : tr_apat C oc p a (PMatch q) = tr_pat C oc p a q.
+Proof. reflexivity. Qed.
+
+Section Main.
+  Variable C : cmodel.
+  Variable objcls : cls -> bool.
+  Variable M : mworld.
+  Variable D : list Z.
+  Hypothesis Hrefl : sub_refl C.
+  Hypothesis Htrans : sub_trans C.
+  Hypothesis Htyped : typed C objcls M.
+  Notation W := (mw M).
+  Notation eval_path := (eval_path M D).
+  Notation eval := (eval C M D).
+  Notation eval_all := (eval_all C M D).
+  Notation good := (good M D).
+
+  Definition fresh (e : env) (q : path) : Prop := forall x, under q x -> lookup e x = None.
+  Definition frame (q : path) (e e' : env) : Prop := forall x, lookup e x = None -> lookup e' x <> None -> under q x.
+  Definition inst (o : Z) (oc : cls) : Prop := sub C (otype M o) oc = true.
+
+  Lemma eval_all_single c e : eval_all [c] e = trues (eval c e).
+  Proof. simpl. apply flat_map_single. Qed.
+
+  Lemma fresh_cons e q p0 v : fresh e q -> ~ under q p0 -> fresh ((p0, v) :: e) q.
+  Proof. intros Hf Hn x Hx. rewrite lookup_cons_ne; auto. intros <-. auto. Qed.
+
+  (* binding the Attribute node pa = p.a from a bound parent *)
+  Lemma bind_attr e p a o : good e -> lookup e p = Some (VO o) -> fresh e (PAttr p a) ->
+    let pa := PAttr p a in let av := attr W o a in let e1 := (pa, av) :: e in
+    eval_path pa e = [(e1, av)] /\ good e1 /\ ext e1 e /\ frame pa e e1 /\ lookup e1 pa = Some av.
+  Proof.
+    intros Hg Hp Hf pa av e1. assert (Hn : lookup e pa = None) by (apply Hf, under_refl).
+    split; [exact (eval_attr M D p a e (VO o) Hp Hn)|].
+    split; [apply good_cons; auto; simpl; eauto|].
+    split; [apply ext_cons; auto|]. split; [|apply lookup_cons_eq].
+    intros x H1 H2. unfold e1 in H2. rewrite lookup_cons in H2. destruct (path_eq_dec pa x); [subst; apply under_refl|congruence].
+  Qed.
+  (* ... and the Flatten node above it, for one element *)
+  Lemma bind_flat e p a o x : good e -> lookup e p = Some (VO o) -> fresh e (PAttr p a) -> In x (elems (attr W o a)) ->
+    let pa := PAttr p a in let pf := PFlat pa in let av := attr W o a in let e2 := (pf, x) :: (pa, av) :: e in
+    good e2 /\ ext e2 e /\ frame pa e e2 /\ lookup e2 pf = Some x.
+  Proof.
+    intros Hg Hp Hf Hx pa pf av e2.
+    destruct (bind_attr e p a o Hg Hp Hf) as [_ [Hg1 [Hx1 [Hfr1 Hl1]]]]. fold pa av in Hg1, Hx1, Hfr1, Hl1.
+    assert (Hn : lookup ((pa, av) :: e) pf = None).
+    { rewrite lookup_cons_ne by discriminate. apply Hf. apply under_flat. }
+    split; [apply good_cons; auto; simpl; eauto|].
+    split; [eapply ext_trans; [apply ext_cons; exact Hn|exact Hx1]|]. split; [|apply lookup_cons_eq].
+    intros y H1 H2. unfold e2 in H2. rewrite lookup_cons in H2. destruct (path_eq_dec pf y); [subst; apply under_flat|].
+    apply Hfr1; auto.
+  Qed.
+  Lemma eval_flat_from e p a o : lookup e p = Some (VO o) -> fresh e (PAttr p a) ->
+    eval_path (PFlat (PAttr p a)) e =
+    map (fun x => ((PFlat (PAttr p a), x) :: (PAttr p a, attr W o a) :: e, x)) (elems (attr W o a)).
+  Proof.
+    intros Hp Hf. apply (eval_flat M D p a e (VO o) Hp); apply Hf; [apply under_refl|apply under_flat].
+  Qed.
+
+  (* the statements proved by mutual induction on the pattern *)
+  Definition concl (q : path) (cs : list tcond) (e : env) (b : bool) : Prop :=
+    (forall e', In e' (eval_all cs e) -> good e' /\ ext e' e /\ frame q e e') /\ (eval_all cs e <> [] <-> b = true).
+  Definition A_stmt (l : alist) : Prop := forall oc p e o,
+    good e -> lookup e p = Some (VO o) -> inst o oc -> (forall a, In a (names l) -> fresh e (PAttr p a)) ->
+    fok_alist C objcls oc p l = true ->
+    (forall e', In e' (eval_all (tr_alist C oc p l) e) ->
+       good e' /\ ext e' e /\
+       (forall x, lookup e x = None -> lookup e' x <> None -> exists a, In a (names l) /\ under (PAttr p a) x))
+    /\ (eval_all (tr_alist C oc p l) e <> [] <-> matches_attrs (sub C) M l o = true).
+  Definition C_stmt (c : apat) : Prop := forall oc p a e o,
+    good e -> lookup e p = Some (VO o) -> inst o oc -> fresh e (PAttr p a) ->
+    fok_apat C objcls oc p a c = true ->
+    concl (PAttr p a) (tr_apat C oc p a c) e (matches_attr (sub C) M c (attr W o a)).
+  Definition P_stmt (q : pat) : Prop := C_stmt (PMatch q).
+
+  (* running the nested keyword list from bindings in which the nested variable pv is bound *)
+  Lemma nested_run l' : A_stmt l' -> forall d p a pv e ein o',
+    under (PAttr p a) pv -> good ein -> ext ein e -> frame (PAttr p a) e ein -> lookup ein pv = Some (VO o') ->
+    inst o' d -> (forall a', fresh ein (PAttr pv a')) -> fok_alist C objcls d pv l' = true ->
+    concl (PAttr p a) (tr_alist C d pv l') ein (matches_attrs (sub C) M l' o') /\
+    (forall e', In e' (eval_all (tr_alist C d pv l') ein) -> ext e' e /\ frame (PAttr p a) e e').
+  Proof.
+    intros IH d p a pv e ein o' Hu Hg Hx Hfr Hl Hi Hfresh Hok.
+    destruct (IH d pv ein o' Hg Hl Hi (fun a' _ => Hfresh a') Hok) as [H1 H2].
+    split; [split; auto|].
+    - intros e' Hin. destruct (H1 e' Hin) as [Hg' [Hx' Hn']]. split; auto. split; auto.
+      intros x Hnone Hsome. destruct (Hn' x Hnone Hsome) as [a' [_ Hua]].
+      eapply under_trans; [exact Hu|]. eapply under_trans; [apply under_attr|exact Hua].
+    - intros e' Hin. destruct (H1 e' Hin) as [Hg' [Hx' Hn']]. split; [eapply ext_trans; eauto|].
+      intros x Hnone Hsome. destruct (lookup ein x) eqn:Hlx.
+      + apply Hfr; auto. congruence.
+      + destruct (Hn' x Hlx Hsome) as [a' [_ Hua]].
+        eapply under_trans; [exact Hu|]. eapply under_trans; [apply under_attr|exact Hua].
+  Qed.
+
+  Lemma fresh_below e q pv a' p0 v : fresh e q -> under q pv -> under q p0 -> psize p0 <= psize pv ->
+    fresh ((p0, v) :: e) (PAttr pv a').
+  Proof.
+    intros Hf Hu H0 Hs. apply fresh_cons.
+    - intros x Hx. apply Hf. eapply under_trans; [exact Hu|]. eapply under_trans; [apply under_attr|exact Hx].
+    - intros H. apply under_size in H. simpl in H. lia.
+  Qed.
+
+  (* ---- one comparator ---- *)
+  Lemma trues_exists_scan rs :
+    (forall e', In e' (trues (exists_scan [] rs)) -> In e' (trues rs)) /\ (trues (exists_scan [] rs) <> [] <-> trues rs <> []).
+  Proof.
+    split.
+    - intros e' H. apply in_trues in H. apply exists_scan_sub in H. apply in_trues. tauto.
+    - rewrite !nonempty_ex. split.
+      + intros [e' H]. exists e'. apply in_trues in H. apply exists_scan_sub in H. apply in_trues. tauto.
+      + intros [e' H]. apply in_trues in H. assert (Hne : exists_scan [] rs <> []) by (apply exists_scan_first; eauto).
+        destruct (exists_scan [] rs) as [|[e0 f0] sc] eqn:Hsc; [congruence|].
+        assert (Hin : In (e0, f0) (exists_scan [] rs)) by (rewrite Hsc; simpl; auto).
+        apply exists_scan_sub in Hin. destruct Hin as [-> _]. exists e0. apply in_trues. simpl. auto.
+  Qed.
+
+  Lemma cmp_results ex k pc v e :
+    let R := trues (map (fun r : env * val => (fst r, negb (cmp M k (snd r) v))) (eval_path pc e)) in
+    (forall e', In e' (eval_all [TCmp ex k pc v] e) -> In e' R) /\ (eval_all [TCmp ex k pc v] e <> [] <-> R <> []).
+  Proof.
+    intros R. rewrite eval_all_single. simpl. destruct ex; [apply trues_exists_scan|]. split; auto. tauto.
+  Qed.
+
+  Lemma trues_one e1 b : trues [(e1, negb b)] = if b then [e1] else [].
+  Proof. destruct b; reflexivity. Qed.
+
+  Lemma cmp_attr ex k v e p a o : good e -> lookup e p = Some (VO o) -> fresh e (PAttr p a) ->
+    concl (PAttr p a) [TCmp ex k (PAttr p a) v] e (cmp M k (attr W o a) v).
+  Proof.
+    intros Hg Hp Hf. destruct (bind_attr e p a o Hg Hp Hf) as [Hev [Hg1 [Hx1 [Hfr1 _]]]].
+    destruct (cmp_results ex k (PAttr p a) v e) as [H1 H2]. rewrite Hev in H1, H2. simpl map in H1, H2.
+    rewrite trues_one in H1, H2. split.
+    - intros e' Hin. apply H1 in Hin. destruct (cmp M k (attr W o a) v); [|contradiction].
+      destruct Hin as [<-|[]]. auto.
+    - rewrite H2. destruct (cmp M k (attr W o a) v); split; congruence.
+  Qed.
+
+  Lemma trues_map_in {A} (E : A -> env) (P : A -> bool) l e' :
+    In e' (trues (map (fun x => (E x, negb (P x))) l)) <-> exists x, In x l /\ P x = true /\ e' = E x.
+  Proof.
+    rewrite in_trues, in_map_iff. split.
+    - intros [x [H Hx]]. injection H as <- Hb. exists x. split; auto. split; auto. destruct (P x); auto; discriminate.
+    - intros [x [Hx [Hb ->]]]. exists x. rewrite Hb. auto.
+  Qed.
+
+  Lemma cmp_flat ex v e p a o : good e -> lookup e p = Some (VO o) -> fresh e (PAttr p a) ->
+    concl (PAttr p a) [TCmp ex OIn (PFlat (PAttr p a)) v] e
+          (existsb (fun x => vmem M x (elems v)) (elems (attr W o a))).
+  Proof.
+    intros Hg Hp Hf.
+    destruct (cmp_results ex OIn (PFlat (PAttr p a)) v e) as [H1 H2].
+    rewrite (eval_flat_from e p a o Hp Hf), map_map in H1, H2. cbn [fst snd cmp] in H1, H2. split.
+    - intros e' Hin. apply H1 in Hin. apply trues_map_in in Hin. destruct Hin as [x [Hx [_ ->]]].
+      destruct (bind_flat e p a o x Hg Hp Hf Hx) as [? [? [? _]]]. auto.
+    - rewrite H2, nonempty_ex, existsb_exists. split.
+      + intros [e' Hin]. apply trues_map_in in Hin. destruct Hin as [x [Hx [Hb _]]]. eauto.
+      + intros [x [Hx Hb]]. eexists. apply trues_map_in. eauto.
+  Qed.
+
+  Lemma has_attr T e p a o : good e -> lookup e p = Some (VO o) -> fresh e (PAttr p a) ->
+    concl (PAttr p a) [THas (PAttr p a) T] e (isinst C M (attr W o a) T)
+    /\ eval_all [THas (PAttr p a) T] e = if isinst C M (attr W o a) T then [(PAttr p a, attr W o a) :: e] else [].
+  Proof.
+    intros Hg Hp Hf. destruct (bind_attr e p a o Hg Hp Hf) as [Hev [Hg1 [Hx1 [Hfr1 _]]]].
+    assert (Heq : eval_all [THas (PAttr p a) T] e = if isinst C M (attr W o a) T then [(PAttr p a, attr W o a) :: e] else []).
+    { rewrite eval_all_single. unfold Match.eval. rewrite Hev. simpl map. apply trues_one. }
+    split; auto. rewrite Heq. split.
+    - intros e' Hin. destruct (isinst C M (attr W o a) T); [|contradiction]. destruct Hin as [<-|[]]. auto.
+    - destruct (isinst C M (attr W o a) T); split; congruence.
+  Qed.
+End Main.
